@@ -127,9 +127,6 @@ def format_float(x: float, places: int = 6) -> str:
     result = f'{x+0.0:.{places}f}'
     if '.' in result:
         result = result.rstrip('0').rstrip('.')
-    if result == '-0':
-        # A small negative value rounds to zero but keeps its sign.
-        result = '0'
     return result
 
 
